@@ -96,8 +96,11 @@ Definition mon_direction (c : amm_case) : bool :=
   | _, _ => true end.
 
 Definition quote_val (r : res Z) : Z := match r with Ok v => v | _ => -1 end.
+Definition fuel_out {A} (r : res A) : bool := match r with Err e => e =? E_FUEL | _ => false end.
 Definition mono_corr (s : amm) (ei : bool) (di x1 r1 x2 r2 : Z) : bool :=
-  (quote_val (quote_swap s ei di (1 - di) x1 true) =? r1) && (quote_val (quote_swap s ei di (1 - di) x2 true) =? r2).
+  let q1 := quote_swap s ei di (1 - di) x1 true in
+  let q2 := quote_swap s ei di (1 - di) x2 true in
+  (fuel_out q1 || (quote_val q1 =? r1)) && (fuel_out q2 || (quote_val q2 =? r2)).
 (* monitor 6: output monotone in input (exact-in); input monotone in output (exact-out) *)
 Definition mon_mono (x1 r1 x2 r2 : Z) : bool :=
   if (0 <=? r1) && (0 <=? r2) && (x1 <=? x2) then r1 <=? r2 else true.
@@ -108,9 +111,9 @@ Definition round_corr (s : amm) (di x y x' : Z) : bool :=
       if negb (o1 =? y) then false else
       match swap s1 true (1 - di) di y true with
       | Ok (_, _, o2) => o2 =? x'
-      | _ => x' =? -1
+      | r => fuel_out r || (x' =? -1)
       end
-  | _ => y =? -1
+  | r => fuel_out r || (y =? -1)
   end.
 (* monitor 7: there and back never returns more than was put in *)
 Definition mon_round (x y x' : Z) : bool := if (0 <=? y) && (0 <=? x') then x' <=? x else true.
